@@ -20,7 +20,7 @@ from vlib import core, rt
 from props import pipegen, c01
 
 PROP = "C03"
-VARS = ["x", "y", "z", "t"]
+VARS = ["x", "y", "z", "t", "T", "N", "dt", "aB", "a_b"]      # mixed case: axis order is plain code-point order of the names
 
 ELEMENTS = {
     "TSource": dict(kind="source", params=[("v", None)], beh=["term", "src"], declared=[], inT="NoDataType"),
